@@ -29,6 +29,9 @@ CHECKS = {
              technique="custom MIR analysis: guard dominance on slot stores, loop-exit path rule, sibling-agreement (memoisation) rule, who-may-call census", ref="§4 C03"),
  "C07": dict(text="Static necessary conditions of proof validity, decided in the explanations configurations (which the pinned suite never builds): ProvenEqRaw is constructed only in the five *Proof::check kernels, each behind at least one premise guard and storing the checked equation, with private fields; leaves are produced only by union_instantiations from the user's justification and exactly the synified instantiations; orientation coherence between every permutation and the proof paired with it at the three sites (leader union, self-symmetry derivation, explanation), cross-checked against each other and against the invariant ProvenPerm::check asserts; composition/inverse/chaining helpers pair permutation algebra with the matching proof combinator (frozen role table); proof-carrying sifting mirrors sifting; the conclusion is the queried pair in order. Validity of each proof object as a value is not decided.",
              technique="custom MIR analysis: who-may-construct (kernel confinement), operand-role tables for orientation, sibling cross-check, guard dominance", ref="§4 C07"),
+ "C17": dict(category="proof", text="Proof by abstract interpretation of slot.rs: a path-enumerating interpreter over affine forms with intervals and residues mod 4 discharges, on the MIR of every slot constructor, the obligations O1 (constructor privacy), O2 (residue class of every Slot(..) construction), O3 (counter = 1 mod 4, inductive), O4 (every store raises the counter; fresh() returns the pre-increment value), O5 (after parsing f<n> the counter is above that slot on both branches), O6 (interning: index = length before the single push, push and insert together, on a miss only, single writer), O7 (Display inverts the three encodings with the same constants and literals), O8 (numbers from text only in canonical decimal and below 2^30), O9 (every overflow assertion in slot.rs discharged). Assumes fewer than 2^30 fresh slots per thread.",
+             technique="abstract interpretation over MIR (affine forms + intervals + residues, path enumeration), constructor-privacy census", ref="§4 C17",
+             note="Trusted base: rustc MIR construction, sefacts, salib.absint, the std contracts of str::parse::<u32>, u32::to_string, HashMap::get/insert, Vec::push/len. The model of the canonical-number helper is re-verified from its own MIR on every run. Assumption: the u32 counter does not wrap (fewer than 2^30 - 2 fresh slots per thread)."),
  "C02": dict(text="Static necessary conditions of congruence-closure completeness: inter-procedural work-list summaries prove that no public &mut entry point returns with a non-empty work-list in any feature configuration; the drain loop exits only on empty; every class-level change re-queues usages with Full; PendingType::merge truth table; remove/re-insert pairing and self-symmetry derivation in the work-list handler; orbit closure feeds the stored slot set (known finding F1). Does not decide that the fixpoint equals the congruence closure.",
              technique="custom MIR analysis: inter-procedural must-pass-through summaries (greatest fixpoint), path rules, exhaustive constant evaluation of a 2x2 match, value dependence", ref="§4 C02"),
  "C01": dict(text="Static necessary conditions of equality soundness, decided on the MIR of every feature configuration: eq() answers true only via the class-group membership test behind the id and slot-set guards on canonicalised operands; the slot-set writer's cap is an intersection; add-permutation / merge branch discipline; union-find edge orientation. Does not decide soundness of computed slot maps as values.",
